@@ -70,6 +70,18 @@ def foundHost : Nat → HostNames → Str → Str → Option (HostNames × Str)
 /-- A top-level call (depth 2 is always enough, see `C19_scanner_no_recursion_error`). -/
 def foundHostTop (m : HostNames) (name ip : Str) : Option (HostNames × Str) := foundHost 3 m name ip
 
+/-- A scanner session: any sequence of `found_host` calls (whatever `hw_main`'s jobs feed it);
+the final `hostnames` and everything written to stdout, in order. -/
+def scanAll : HostNames → List (Str × Str) → Option (HostNames × Str)
+  | m, [] => some (m, [])
+  | m, c :: cs =>
+    match foundHostTop m c.1 c.2 with
+    | none => none
+    | some (m1, o1) =>
+      match scanAll m1 cs with
+      | none => none
+      | some (m2, o2) => some (m2, o1 ++ o2)
+
 /-! ### server: `hostwatch_ready` -/
 
 /-- `b.split(sep)` for a one-byte separator. -/
